@@ -15,7 +15,8 @@ CbT == << [contains |-> "confirm", notcontains |-> "", re |-> "", insens |-> TRU
           [contains |-> "", notcontains |-> "more", re |-> "hashend", insens |-> TRUE, once |-> FALSE, complete |-> TRUE, reset |-> FALSE],
           [contains |-> "finished", notcontains |-> "", re |-> "", insens |-> TRUE, once |-> FALSE, complete |-> TRUE, reset |-> FALSE],
           [contains |-> "DONE", notcontains |-> "", re |-> "", insens |-> FALSE, once |-> FALSE, complete |-> TRUE, reset |-> FALSE] >>
-Segs == << "confirm-q", "password-q", "yesno-q", "digit-line", "plain", "more", "finished", "done-upper", "done-lower", "password-again", "two-triggers" >>
+Segs == << "confirm-q", "password-q", "yesno-q", "digit-line", "plain", "more", "finished", "done-upper", "done-lower", "password-again", "two-triggers",
+          "pw-upper-q", "more-upper" >>       \* the excluded text in capitals: an insensitive not-contains must still see it
 Scn(m) == LET nc == 1 + Below(3, m, 1)
               ns == 2 + Below(3, m, 2)
           IN [id |-> m, cbs |-> [j \in 1..nc |-> Pick(CbT, m, 10 + j)],
